@@ -230,7 +230,20 @@ func injectOne(t *rapid.T, src []byte, o LayoutOpts, i int) ([]byte, string) {
 		if len(lineEnds) == 0 {
 			return nil, ""
 		}
-		off := lineEnds[rapid.IntRange(0, len(lineEnds)-1).Draw(t, "line")]
+		// a //line directive is only recognised in column 1, and gofmt never indents it: inside
+		// indented code that is a column-dependent layout (KF-1 class), so it goes in front of
+		// unindented lines only
+		var top []int
+		depth := nestingDepth(src)
+		for _, e := range lineEnds {
+			if e+1 < len(src) && depth[e+1] == 0 && src[e+1] != '\n' {
+				top = append(top, e)
+			}
+		}
+		if len(top) == 0 {
+			return nil, ""
+		}
+		off := top[rapid.IntRange(0, len(top)-1).Draw(t, "line")]
 		return ins(off+1, fmt.Sprintf("//line f%s.go:%d\n", tag, 2+i)), "line-directive"
 	default:
 		if !o.Special {
@@ -239,4 +252,35 @@ func injectOne(t *rapid.T, src []byte, o LayoutOpts, i int) ([]byte, string) {
 		s := specialTexts[rapid.IntRange(0, len(specialTexts)-1).Draw(t, "special")]
 		return ins(pickTok(), s), "special"
 	}
+}
+
+// nestingDepth returns, for every byte offset, how many brackets of any kind are open there.
+func nestingDepth(src []byte) []int {
+	depth := make([]int, len(src)+1)
+	fset := token.NewFileSet()
+	file := fset.AddFile("", -1, len(src))
+	var s scanner.Scanner
+	s.Init(file, src, func(token.Position, string) {}, 0)
+	d, last := 0, 0
+	for {
+		pos, tok, _ := s.Scan()
+		if tok == token.EOF {
+			break
+		}
+		off := file.Offset(pos)
+		for i := last; i <= off && i < len(depth); i++ {
+			depth[i] = d
+		}
+		switch tok {
+		case token.LBRACE, token.LPAREN, token.LBRACK:
+			d++
+		case token.RBRACE, token.RPAREN, token.RBRACK:
+			d--
+		}
+		last = off + 1
+	}
+	for i := last; i < len(depth); i++ {
+		depth[i] = d
+	}
+	return depth
 }
